@@ -525,6 +525,35 @@ class Report:
     def note(self, text):
         self.notes.append(text)
 
+    def backed(self, rule, decided, what, *args, only=None, **kw):
+        """Run a *structural* rule whose clause an *evaluation* rule has already decided (`decided` true: the evaluation
+        rule ran to the end without violation).  The structural rule argues from the shape of the code for all sizes
+        and is the one that false-alarms or gives up on an unfamiliar idiom; when the evaluation has decided the same
+        clause, what the structural rule reports (violations of the rules named in `only`, or an unrecognised idiom) is
+        kept as a note.  When the evaluation has not decided the clause, the structural rule counts as before."""
+        nv, ni = len(self.violations), len(self.instances)
+        try:
+            out = rule(*args, **kw)
+        except AnalysisError as e:
+            if decided:
+                self.note(f"structural rule {getattr(rule, '__name__', rule)} did not recognise the idiom ({str(e)[:160]}); {what}")
+                return None
+            self.failed_floors.append(str(e))
+            return None
+        if decided:
+            keep = []
+            for v in self.violations[nv:]:
+                if only is None or any(v["rule"].startswith(o) for o in only):
+                    self.note(f"structural rule {v['rule']} reported `{v['what'][:200]}` at {v['where']}; {what}")
+                    for inst in self.instances[ni:]:
+                        if inst.get("verdict") == "VIOLATED" and inst.get("rule") == v["rule"] and inst.get("construct") == v["construct"]:
+                            inst["verdict"] = "holds"
+                            inst["detail"] = "structural mismatch, clause decided by evaluation: " + inst.get("detail", "")[:120]
+                else:
+                    keep.append(v)
+            self.violations[nv:] = keep
+        return out
+
     def attempt(self, rule, *args, **kw):
         """Run one rule; an undecided rule (AnalysisError) is deferred behind violations found by the
         other rules instead of aborting the whole run."""
